@@ -1,7 +1,7 @@
 """C09 (narrow): T-SIB(f) marker agreement, SAVE-RESTORE of include_parse, REPEAT copy loop, T-SIB(b) on macro pools,
 R-ERR1 on macro definition/expansion results."""
 from nk import report
-from rules import sym, err, defstrip
+from rules import sym, err, defstrip, dblstep
 from . import common
 
 EXPLANATION = (
@@ -10,7 +10,7 @@ EXPLANATION = (
     'the ones macros_expand_params and Macros::dump use. SAVE-RESTORE: include_parse puts back input file, file name, '
     'line number and listing switch on every path to its exit. REPEAT: .repeat copies exactly the image range assembled '
     'for its body, count-1 more times. T-SIB(b): macro pool walkers restart their offset per pool. R-ERR1: results of '
-    'macros_append / macros_push_define / macros_parse / macros_expand_params are examined. DEFINE-STRIP: a define value collected character by character from the source passes macros_strip() before it is stored. STRIP-CUTS: every store of macros_strip() depends on a comment test, it removes nothing else. QUOTE-STATE: the argument-list nesting counter of macros_expand_params changes only under tests of every quote-state flag (string and character literal).')
+    'macros_append / macros_push_define / macros_parse / macros_expand_params are examined. DEFINE-STRIP: a define value collected character by character from the source passes macros_strip() before it is stored. STRIP-CUTS: every store of macros_strip() depends on a comment test, it removes nothing else. QUOTE-STATE: the argument-list nesting counter of macros_expand_params changes only under tests of every quote-state flag (string and character literal). DOUBLE-STEP: a for loop of core/, fileio/, common/ that steps its counter in the header does not step it again in the body (the include-path list keeps every character).')
 
 
 def run(tier, t0):
@@ -24,5 +24,5 @@ def run(tier, t0):
     pw.obs = [o for o in pw.obs if o.file == 'core/Macros.cpp']
     pw.floor = 3
     results = [sym.marker(prog), sym.save_restore(prog), sym.repeat(prog), pw, e1,
-               sym.find_exhaustive(prog, lambda f: f.file == 'core/Macros.cpp', 1), sym.unget_eof(prog), defstrip.define_strip(prog), defstrip.strip_cuts(prog), defstrip.quote_state(prog)]
+               sym.find_exhaustive(prog, lambda f: f.file == 'core/Macros.cpp', 1), sym.unget_eof(prog), defstrip.define_strip(prog), defstrip.strip_cuts(prog), defstrip.quote_state(prog), dblstep.double_step(prog)]
     return report.finish('C09', tier, results, EXPLANATION, [], common.TRUSTED, t0)
